@@ -1,0 +1,26 @@
+"""Verification hook points (inert unless ``XONSH_XONSH_VERIF=1`` *and* a
+controller has been installed by a test harness).
+
+``point(name, **fields)`` marks a step boundary of a concurrent algorithm
+(e.g. "about to take the history condition").  A harness may install a
+controller that records the event or holds the calling thread there, so that
+an interleaving found by a model checker can be reproduced deterministically.
+"""
+
+import os
+
+_ENABLED = os.environ.get("XONSH_XONSH_VERIF") == "1"
+_controller = None
+
+
+def install(controller):
+    """Install (or, with ``None``, remove) the controller callable."""
+    global _controller
+    _controller = controller
+
+
+def point(name, **fields):
+    """A schedule point. Constant no-op unless enabled and controlled."""
+    if not _ENABLED or _controller is None:
+        return
+    _controller(name, fields)
